@@ -230,9 +230,11 @@ def perform(acl: Acl, op: dict):
         # a caller merges both platforms' port names in the dict PortName.names() returned
         from cisco_acl import PortName
         for proto in ("tcp", "udp"):
-            d = PortName(protocol=proto, platform=acl.platform).names()
-            d.update(PortName(protocol=proto,
-                              platform="nxos" if acl.platform == "ios" else "ios").names())
+            ios = PortName(protocol=proto, platform="ios").names()
+            nxos = PortName(protocol=proto, platform="nxos").names()
+            both = dict(ios, **nxos)
+            ios.update(both)
+            nxos.update(both)
             PortName(protocol=proto, platform=acl.platform).ports().clear()
         return None
     if k == "foreign_parse":
